@@ -33,6 +33,8 @@ def gen(ctx):
         if rng.random() < 0.3:
             # the net was trained on other patterns before: train() SETS the weights, it does not accumulate
             c["pre"] = [[rng.choice([-1, 1]) for _ in range(N)] for _ in range(rng.randint(1, 3))]
+            if rng.random() < 0.5:
+                c["pre2"] = [[rng.choice([-1, 1]) for _ in range(N)] for _ in range(rng.randint(1, 3))]
         if rng.random() < 0.3:
             c["scribble"] = 1
         if rng.random() < 0.25:
@@ -106,6 +108,11 @@ def run(c):
         pd = c.get("pdtype", "int64")
         if c.get("pre"):
             net.train(np.array(c["pre"]))
+            if c.get("pre2"):
+                # the net recalled with those weights (one full sweep: the update order is back at its start), was retrained,
+                # and is retrained once more below without having been used in between: only the last training counts
+                cpl.evolve(np.array([[1 if i % 3 else -1 for i in range(N)]]), timesteps=N + 1, apply_rule=net.apply_rule, r=net.r)
+                net.train(np.array(c["pre2"]))
         Parg = [list(p) for p in c["P"]] if pd == "list" else np.array(c["P"], dtype=pd)
         net.train(Parg)
         if c.get("scribble"):
